@@ -4,8 +4,9 @@ from ..common import d42  # noqa: F401
 from d42 import substitute, validate
 
 MODULE = "D42.Props.C05"
-THEOREMS = []
-FILES = ["D42/Model/Data.lean", "D42/Model/Validate.lean", "D42/Model/Subst.lean", "D42/Props/C05.lean"]
+THEOREMS = ["subst_narrows", "subValidate_of_validate", "subst_narrows_float_counterexample"]
+FILES = ["D42/Model/Data.lean", "D42/Model/Validate.lean", "D42/Model/Subst.lean", "D42/Props/C14.lean", "D42/Props/C12.lean",
+         "D42/Props/C05.lean"]
 
 EVIDENCE = dict(
     level="proof",
